@@ -1,4 +1,5 @@
 import Cutadapt.Proofs.ParserTop
+import Cutadapt.Proofs.ParserWF
 /-! # C18 — adapter specifications mean what the documented notation says
 
 Model: `Cutadapt.Parser` (`parse` = `make_adapters_from_one_specification` on the `search_parameters` of `cli.adapters_from_args`,
@@ -103,18 +104,6 @@ theorem precedence_documented (g : Globals) (fparams : List Param) :
 
 /-! ## Absolute numbers of errors -/
 
-theorem ite_err_ok {ε α : Type} {c : Prop} [Decidable c] {e : ε} {x : Except ε α} {a : α}
-    (h : (if c then Except.error e else x) = .ok a) : x = .ok a := by
-  by_cases hc : c
-  · rw [if_pos hc] at h; cases h
-  · rw [if_neg hc] at h; exact h
-
-theorem ite_ok_cases {ε α : Type} {c : Prop} [Decidable c] {x y : Except ε α} {a : α}
-    (h : (if c then x else y) = .ok a) : x = .ok a ∨ y = .ok a := by
-  by_cases hc : c
-  · rw [if_pos hc] at h; exact Or.inl h
-  · rw [if_neg hc] at h; exact Or.inr h
-
 /-- **`absolute_errors`** (constructor level, every class and keyword dict): the adapter keeps the value `e` given for
     `max_errors` and a divisor such that its maximum error rate is exactly `e / divisor`; the divisor is the number of non-`N`
     characters of the (normalised) sequence when `e ≥ 1`, and 1 when `e < 1` (the value is the rate itself). -/
@@ -142,47 +131,11 @@ theorem absolute_errors_rate {cls : Cls} {sq : Str} {name : Option Str} {kw : Pa
 
 /-! ## Rejections: the documented invalid combinations give exit status 2 -/
 
-theorem toKind_error_inv {α : Type} {r : Except Err α} (h : toKind r = .error .cmdline) : ∃ e, r = .error e ∧ e.isCmdline = true := by
-  cases r with
-  | ok a => cases h
-  | error e =>
-    refine ⟨e, rfl, ?_⟩
-    simp only [toKind, kindOf] at h
-    cases hk : e.isCmdline with
-    | true => rfl
-    | false =>
-      rw [hk] at h
-      simp only [Bool.false_eq_true, if_false] at h
-      split at h <;> cases h
-
 /-- **`rejected`** (general form): whenever the documented meaning of a well-formed specification is "invalid", the parser raises
     an exception that `cli.py` turns into an error message and exit status 2. -/
 theorem rejected (s : Spec) (g : Globals) (hs : s.WF) (hg : GlobalsOK g) (hm : meaning s g = .error .cmdline) :
     ∃ e, parse s.render s.opt.atype g s.records = .error e ∧ e.isCmdline = true :=
   toKind_error_inv (by rw [parse_render s g hs hg, hm])
-
-/-- what makes a single adapter invalid, besides inconsistent parameters -/
-theorem meaningPart_invalid (t : AType) (inL : Bool) (p : Part) (base : Base) (nm : Option Str)
-    (h : paramsConsistent p.params = false ∨ classOf t p.restr (paramSem p.params).rightmost = none ∨
-      ((paramSem p.params).o.isSome = true ∧ p.restr.anchored = true) ∨ (inL = false ∧ (paramSem p.params).required.isSome = true)) :
-    meaningPart t inL p base nm = .error .cmdline := by
-  unfold meaningPart
-  by_cases hc : paramsConsistent p.params = true
-  · simp only [hc, Bool.not_true, Bool.false_eq_true, if_false]
-    rcases h with h | h | h | h
-    · rw [hc] at h; cases h
-    · rw [h]
-    · cases classOf t p.restr (paramSem p.params).rightmost with
-      | none => rfl
-      | some cls => simp [h]
-    · cases classOf t p.restr (paramSem p.params).rightmost with
-      | none => rfl
-      | some cls =>
-        simp only
-        split
-        · rfl
-        · simp [h]
-  · simp [hc]
 
 theorem rejected_single (o : Opt) (p : Part) (g : Globals) (hp : p.WF) (hg : GlobalsOK g)
     (h : paramsConsistent p.params = false ∨ classOf o.atype p.restr (paramSem p.params).rightmost = none ∨
@@ -270,24 +223,6 @@ theorem rejected_linked_b (f b : Part) (g : Globals) (hs : (Spec.plain .b (.link
 
 /-! ## Linked adapters: which parts are required -/
 
-theorem buildPart_req {p : Part} {base : Base} {cls : Cls} {nm : Option Str} {fa : Bool} {a : Single} {r : Option Value}
-    (h : buildPart p base cls nm fa = .ok (a, r)) : r = (paramSem p.params).required := by
-  unfold buildPart at h
-  have h2 := ite_err_ok (ite_err_ok h)
-  injection h2 with h2
-  injection h2 with _ h2
-  exact h2.symm
-
-theorem meaningPart_req {t : AType} {inL : Bool} {p : Part} {base : Base} {nm : Option Str} {a : Single} {r : Option Value}
-    (h : meaningPart t inL p base nm = .ok (a, r)) : r = (paramSem p.params).required := by
-  unfold meaningPart at h
-  have h1 := ite_err_ok h
-  cases hc : classOf t p.restr (paramSem p.params).rightmost with
-  | none => rw [hc] at h1; cases h1
-  | some cls =>
-    rw [hc] at h1
-    exact buildPart_req (ite_err_ok (ite_err_ok h1))
-
 /-- **`required_defaults`**: in a linked adapter `PART1...PART2` each part is required or optional as its own
     `required`/`optional` parameter says; without such a parameter, with `-g` both parts are required, and with `-a` a part is
     required exactly if it carries a placement restriction (anchored `^`/`$` as documented; the implementation also counts the
@@ -349,5 +284,117 @@ theorem required_defaults_g (f b : Part) (g : Globals) (hs : (Spec.plain .g (.li
   obtain ⟨h1, h2, _⟩ := required_defaults .g f b g hs hg h
   rw [hf] at h1; rw [hb] at h2
   exact ⟨h1, h2⟩
+
+/-! ## Where the implementation leaves the documented notation (model level)
+
+These two are facts about the code that the model reproduces; they are the reason for the side conditions `Part.noAnywhere`
+(linked parts) and `fileParamName` (file-level parameters) in `Spec.WF`. -/
+
+/-- the default global options: `-e 0.1 -O 3`, no read wildcards, adapter wildcards, indels -/
+def defaultGlobals : Globals := ⟨.float ⟨1, 1⟩, .int 3, false, true, true⟩
+
+/-- `-a "ACGT;anywhere...TTTT"`: `anywhere` inside a linked part reaches `SingleAdapter.__init__` as an unexpected keyword
+    argument — a `TypeError`, which `cli.py` does not turn into a command-line error (traceback, exit status 1). -/
+theorem linked_anywhere_crashes :
+    toKind (parse (cs!"ACGT;anywhere...TTTT") .back defaultGlobals []) = .error .crash := by rfl
+
+/-- `-a "file:adapters.fa;anywhere"` (equally `;rightmost`, `;required` for records that are not linked): file-level flags
+    are passed on as keyword arguments — `TypeError` as above. -/
+theorem file_level_flag_crashes :
+    toKind (parse (cs!"file:a.fa;anywhere") .back defaultGlobals [(cs!"r1", cs!"ACGT")]) = .error .crash ∧
+    toKind (parse (cs!"file:a.fa;rightmost") .front defaultGlobals [(cs!"r1", cs!"ACGT")]) = .error .crash ∧
+    toKind (parse (cs!"file:a.fa;required") .back defaultGlobals [(cs!"r1", cs!"ACGT")]) = .error .crash := ⟨rfl, rfl, rfl⟩
+
+/-! ## The hypotheses are satisfiable: concrete, non-trivial instances -/
+
+/-- `-g "ad1=^AC{3}N{2}g;e=0.2;noindels"` -/
+def ex1 : Spec :=
+  .plain .g (.single ⟨some (cs!"ad1"), .caret, [⟨'A', none⟩, ⟨'C', some 3⟩, ⟨'N', some 2⟩, ⟨'g', none⟩],
+    [⟨.e, some (.dec 0 [2])⟩, ⟨.noindels, none⟩]⟩)
+
+/-- `-a "^ACGT;optional...T{4}X;o=3;max_errors=2"` -/
+def ex2 : Spec :=
+  .plain .a (.linked ⟨none, .caret, [⟨'A', none⟩, ⟨'C', none⟩, ⟨'G', none⟩, ⟨'T', none⟩], [⟨.optional, none⟩]⟩
+    ⟨none, .xRight, [⟨'T', some 4⟩], [⟨.o, some (.int 3)⟩, ⟨.maxErrors, some (.int 2)⟩]⟩)
+
+/-- `-g "^file:ad.fa;e=0.2;noindels"` with records `>r1 first` `ACGTAC;e=1` and `>` `ACGT...TTTT;min_overlap=2` -/
+def ex3 : Spec :=
+  .file .g .caret (cs!"ad.fa") [⟨.e, some (.dec 0 [2])⟩, ⟨.noindels, none⟩]
+    [⟨cs!"r1 first", .single ⟨none, .none, [⟨'A', none⟩, ⟨'C', none⟩, ⟨'G', none⟩, ⟨'T', none⟩, ⟨'A', none⟩, ⟨'C', none⟩],
+        [⟨.e, some (.int 1)⟩]⟩⟩,
+     ⟨[], .linked ⟨none, .none, [⟨'A', none⟩, ⟨'C', none⟩, ⟨'G', none⟩, ⟨'T', none⟩], []⟩
+        ⟨none, .none, [⟨'T', none⟩, ⟨'T', none⟩, ⟨'T', none⟩, ⟨'T', none⟩], [⟨.minOverlap, some (.int 2)⟩]⟩⟩]
+
+theorem ex1_WF : ex1.WF := specWfB_sound (by decide)
+theorem ex2_WF : ex2.WF := specWfB_sound (by decide)
+theorem ex3_WF : ex3.WF := specWfB_sound (by decide)
+
+example : ex1.render = cs!"ad1=^AC{3}N{2}g;e=0.2;noindels" := by decide
+example : ex2.render = cs!"^ACGT;optional...T{4}X;o=3;max_errors=2" := by decide
+example : ex3.render = cs!"^file:ad.fa;e=0.2;noindels" ∧
+    ex3.records = [(cs!"r1 first", cs!"ACGTAC;e=1"), ([], cs!"ACGT...TTTT;min_overlap=2")] := by decide
+
+/-- `parse_render` applies to the three instances; their documented meanings are (not trivially) these: -/
+example : toKind (parse ex1.render .front defaultGlobals []) = meaning ex1 defaultGlobals := parse_render ex1 _ ex1_WF rfl
+example : meaning ex1 defaultGlobals =
+    .ok [.single ⟨.prefix, cs!"ACCCNNG", some (cs!"ad1"), .float ⟨2, 1⟩, 1, .int 7, .bool false, .bool false, true, false⟩] := by
+  rfl
+example : toKind (parse ex2.render .back defaultGlobals []) = meaning ex2 defaultGlobals := parse_render ex2 _ ex2_WF rfl
+example : meaning ex2 defaultGlobals =
+    .ok [.linked ⟨.prefix, cs!"ACGT", some (cs!"linked_front"), .float ⟨1, 1⟩, 1, .int 4, .bool true, .bool false, false, false⟩
+      ⟨.nonInternalBack, cs!"TTTT", some (cs!"linked_back"), .int 2, 4, .int 3, .bool true, .bool false, false, false⟩
+      (.bool false) (.bool true) none] := by
+  rfl
+example : toKind (parse ex3.render .front defaultGlobals ex3.records) = meaning ex3 defaultGlobals := parse_render ex3 _ ex3_WF rfl
+example : meaning ex3 defaultGlobals =
+    .ok [.single ⟨.prefix, cs!"ACGTAC", some (cs!"r1"), .int 1, 6, .int 6, .bool false, .bool false, false, false⟩,
+      .linked ⟨.prefix, cs!"ACGT", some (cs!"linked_front"), .float ⟨2, 1⟩, 1, .int 4, .bool false, .bool false, false, false⟩
+        ⟨.back, cs!"TTTT", some (cs!"linked_back"), .float ⟨2, 1⟩, 1, .int 2, .bool false, .bool false, false, false⟩
+        (.bool true) (.bool true) none] := by
+  rfl
+
+/-- `expand_render_runs`: `AC{3}N{0}g{12}` -/
+example : expandBraces (renderRuns [⟨'A', none⟩, ⟨'C', some 3⟩, ⟨'N', some 0⟩, ⟨'g', some 12⟩]) = .ok (cs!"ACCCgggggggggggg") :=
+  expand_render_runs _ (by decide)
+
+/-- `params_roundtrip`: `e=0.25;o=4;noindels;anywhere` -/
+example : paramsConsistent [⟨.e, some (.dec 0 [2, 5])⟩, ⟨.o, some (.int 4)⟩, ⟨.noindels, none⟩, ⟨.anywhere, none⟩] = true := by decide
+example : paramsTail [⟨.e, some (.dec 0 [2, 5])⟩, ⟨.o, some (.int 4)⟩, ⟨.noindels, none⟩, ⟨.anywhere, none⟩] = cs!"e=0.25;o=4;noindels;anywhere" := by
+  decide
+
+/-- `restrictions_roundtrip`: `XACGTN` -/
+example : edgeOK (cs!"ACGTN") ∧ ∀ c ∈ cs!"ACGTN", c ≠ '^' ∧ c ≠ '$' := ⟨edgeB_sound (by decide), by decide⟩
+
+/-- `absolute_errors`: `-a "ACGTNNAC;e=2"` has rate 2/6 -/
+example : ∃ a, construct .back (cs!"ACGTNNAC") none [(.maxErrors, .int 2)] = .ok a ∧ a.maxErrors = .int 2 ∧ a.divisor = 6 :=
+  ⟨_, rfl, rfl, rfl⟩
+
+/-- the `rejected_*` theorems: `-g "^ACGT;o=3"`, `-a "XACGT"`, `-a "ACGT;rightmost"`, `-a "ACGT;optional"`, `-a "ACGT;e=1;max_errors=2"`,
+    `-b "ACGT...TTTT"` -/
+example : ∃ e, parse (cs!"^ACGT;o=3") .front defaultGlobals [] = .error e ∧ e.isCmdline = true :=
+  rejected_min_overlap_anchored .g ⟨none, .caret, [⟨'A', none⟩, ⟨'C', none⟩, ⟨'G', none⟩, ⟨'T', none⟩], [⟨.o, some (.int 3)⟩]⟩
+    defaultGlobals (partWfB_sound (by decide)) rfl (by decide) (Or.inl rfl)
+example : ∃ e, parse (cs!"XACGT") .back defaultGlobals [] = .error e ∧ e.isCmdline = true :=
+  rejected_restriction .a ⟨none, .xLeft, [⟨'A', none⟩, ⟨'C', none⟩, ⟨'G', none⟩, ⟨'T', none⟩], []⟩
+    defaultGlobals (partWfB_sound (by decide)) rfl (Or.inl ⟨rfl, Or.inr rfl⟩)
+example : ∃ e, parse (cs!"ACGT;rightmost") .back defaultGlobals [] = .error e ∧ e.isCmdline = true :=
+  rejected_rightmost .a ⟨none, .none, [⟨'A', none⟩, ⟨'C', none⟩, ⟨'G', none⟩, ⟨'T', none⟩], [⟨.rightmost, none⟩]⟩
+    defaultGlobals (partWfB_sound (by decide)) rfl (by decide) (by decide)
+example : ∃ e, parse (cs!"ACGT;optional") .back defaultGlobals [] = .error e ∧ e.isCmdline = true :=
+  rejected_required_outside_linked .a ⟨none, .none, [⟨'A', none⟩, ⟨'C', none⟩, ⟨'G', none⟩, ⟨'T', none⟩], [⟨.optional, none⟩]⟩
+    defaultGlobals (partWfB_sound (by decide)) rfl (Or.inr (by decide))
+example : ∃ e, parse (cs!"ACGT;e=1;max_errors=2") .back defaultGlobals [] = .error e ∧ e.isCmdline = true :=
+  rejected_duplicate_parameter .a ⟨none, .none, [⟨'A', none⟩, ⟨'C', none⟩, ⟨'G', none⟩, ⟨'T', none⟩],
+      [⟨.e, some (.int 1)⟩, ⟨.maxErrors, some (.int 2)⟩]⟩
+    defaultGlobals (partWfB_sound (by decide)) rfl (by decide)
+example : ∃ e, parse (cs!"ACGT...TTTT") .anywhere defaultGlobals [] = .error e ∧ e.isCmdline = true :=
+  rejected_linked_b ⟨none, .none, [⟨'A', none⟩, ⟨'C', none⟩, ⟨'G', none⟩, ⟨'T', none⟩], []⟩
+    ⟨none, .none, [⟨'T', some 4⟩], []⟩ defaultGlobals (bodyWfB_sound (b := .linked _ _) (by decide)) rfl
+
+/-- `required_defaults`: `-a "^ACGT...TTTT"` (front required, back optional) and `-g "ACGT...TTTT"` (both required) -/
+example : ∃ fa ba, parse (cs!"^ACGT...TTTT") .back defaultGlobals [] = .ok [.linked fa ba (.bool true) (.bool false) none] :=
+  ⟨_, _, rfl⟩
+example : ∃ fa ba, parse (cs!"ACGT...TTTT") .front defaultGlobals [] = .ok [.linked fa ba (.bool true) (.bool true) none] :=
+  ⟨_, _, rfl⟩
 
 end Cutadapt.C18
